@@ -12,6 +12,7 @@ import os
 import shutil
 
 from mon import refbufr as R
+from mon import handover
 from mon.compare import td_of, jsonable
 from mon.gen import cases
 from mon.gen.shapes import EdgePolicy
@@ -149,6 +150,13 @@ def check_pairs(ctx, dec, enc, b, rmeta, spec, origin):
     td = td_of(m)
     n = m.n_subsets.value
     comp = bool(m.is_compressed.value)
+    if len(b) < 20000:
+        # subset() hands out the source's own rows: the source stays what it was whatever is done with the selection, and a
+        # selection encodes to the same message whatever other encoders exist in the process (interference steps)
+        handover.on_message(ctx, b, spec, site=origin, p=0.3)
+        if handover._rng(ctx).random() < 0.15:
+            handover.interference(handover._rng(ctx))
+            ctx.count('interference_steps')
     src_vals = [list(v) for v in td.decoded_values_all_subsets]
     src_labels = [[str(d) for d in ds] for ds in td.decoded_descriptors_all_subsets]
     src_meta = metadata(m)
